@@ -37,8 +37,26 @@ class Obj:
         return f"{self._tag}[{k}]"
 
 
+class Fn:
+    """callable object with deterministic str/repr (an uncalled function prints its address)"""
+
+    def __init__(self, tag, ret):
+        self._tag, self._ret = tag, ret
+
+    def __call__(self):
+        return self._ret
+
+    def __str__(self):
+        return f"<fn {self._tag}>"
+
+    def __repr__(self):
+        return f"Fn({self._tag!r})"
+
+
 def build(v):
     t = v["t"]
+    if t == "callobj":
+        return Fn(v["tag"], build(v["ret"]))
     if t in ("int", "str"):
         return v["v"]
     if t == "float":
@@ -118,6 +136,19 @@ def renderings(case):
     return out
 
 
+def expected(case):
+    """reference text computed with CPython only (independent resolver): None if some field does not render"""
+    out = []
+    for it, r in zip(case["items"], renderings(case)):
+        out.append(it["lit"])
+        if r is None:
+            continue
+        if r == "unresolvable" or r[0] is None:
+            return None
+        out.append(r[0])
+    return "".join(out)
+
+
 def impl(case) -> str:
     from twisted.logger import _format, _flatten, eventAsJSON, eventFromJSON
     fmt = fmt_string(case["items"])
@@ -174,8 +205,18 @@ def oracle(case, obs):
     if obs.startswith("PARSE-MISMATCH"):
         return Failure(case, "generator produced a format string that string.Formatter parses differently", "harness-parse")
     orig, flat, js = obs.split("|")
-    if orig == "!":
-        return None            # the original event does not format: outside the property
+    exp = expected(case)
+    if exp is None:
+        # some field does not resolve / format under CPython's own rules: the event is outside the property
+        # (whatever the original formatting does, there is no text to preserve)
+        if orig == "!":
+            return None
+    else:
+        want = "=" + exp.encode("utf-8").hex()
+        if orig != want:
+            return Failure(case, "formatting the ORIGINAL event does not give the text str.format semantics give "
+                                 f"(got {orig[:60]}, expected {want[:60]}): attribute / index / call resolution in "
+                                 "formatWithCall is broken", "original-format-differs")
     if flat == orig and js == orig:
         return None
     mid = [it for it in case["items"] if it.get("name") is not None and "()" in it["name"][:-2]]
@@ -235,30 +276,58 @@ def model_equal(case, impl_obs, model_out):
     return len(parts) == 3 and parts[0] + "|" + parts[1] == model_out and parts[2] == parts[1]
 
 
+def _o(tag, **attrs):
+    return {"t": "obj", "tag": tag, "attrs": attrs}
+
+
 VALUES = {
     "x": {"t": "int", "v": 5}, "y": {"t": "str", "v": "sé"}, "z": {"t": "float", "v": "3.14159"},
     "w": {"t": "int", "v": 6}, "n": {"t": "none"},
     "l": {"t": "list", "v": [{"t": "int", "v": 1}, {"t": "str", "v": "two"}, {"t": "list", "v": []}]},
     "d": {"t": "dict", "v": {"k": {"t": "str", "v": "v"}, "n": {"t": "int", "v": -3}}},
-    "o": {"t": "obj", "tag": "o", "attrs": {"a": {"t": "list", "v": [{"t": "int", "v": 10}, {"t": "int", "v": 20}]},
-                                           "d": {"t": "dict", "v": {"k": {"t": "str", "v": "deep"}}},
-                                           "p": {"t": "obj", "tag": "inner", "attrs": {}}}},
+    "o": _o("o", a={"t": "list", "v": [{"t": "int", "v": 10}, {"t": "int", "v": 20}]},
+            d={"t": "dict", "v": {"k": {"t": "str", "v": "deep"}}}, p=_o("inner"),
+            kids={"t": "list", "v": [_o("kid0"), _o("kid1", p=_o("grandkid"))]},
+            reg={"t": "dict", "v": {"k": _o("regk"), "n": _o("regn")}}),
     "f": {"t": "fn", "ret": {"t": "int", "v": 7}},
-    "g": {"t": "fn", "ret": {"t": "obj", "tag": "made", "attrs": {"a": {"t": "str", "v": "A"}}}},
+    "g": {"t": "fn", "ret": _o("made", a={"t": "str", "v": "A"})},
+    # callables with a deterministic text of their own: usable both called and uncalled
+    "c": {"t": "callobj", "tag": "c", "ret": {"t": "int", "v": 41}},
+    "total": {"t": "callobj", "tag": "total", "ret": {"t": "str", "v": "sum"}},
+    # containers of objects with methods
+    "ps": {"t": "list", "v": [_o("p0"), _o("p1", p=_o("p1inner"))]},
+    "pd": {"t": "dict", "v": {"k": _o("pk"), "db": _o("pdb", kids={"t": "list", "v": [_o("pdbkid")]})}},
 }
 NAMES = ["x", "y", "z", "n", "l", "l[1]", "l[0]", "d", "d[k]", "d[n]", "o", "o.a", "o.a[1]", "o.d[k]", "o.p", "o.m()",
-         "o[3]", "o.p.m()", "f()", "g()", "g().a", "x.real", "y.upper()"]
+         "o[3]", "o.p.m()", "f()", "g()", "g().a", "x.real", "y.upper()",
+         "c", "c()", "total", "total()", "o.m", "o.p.m",
+         "ps[0].m()", "ps[1].p.m()", "ps[1].m", "pd[k].m()", "pd[db].m()", "pd[db].kids[0].m()", "o.kids[1].m()",
+         "o.kids[1].p.m()", "o.reg[k].m()", "o.reg[n].m", "ps[0]", "pd[db]", "o.kids[0]"]
+# field names that make sense both called and uncalled (deterministic either way)
+CALLABLE = ["c", "total", "o.m", "o.p.m", "ps[1].m", "ps[0].m", "pd[k].m", "pd[db].m", "o.kids[1].m", "o.reg[n].m",
+            "pd[db].kids[0].m"]
 SPECS = ["", "", "", "", ">6", "<4", "^9", "8", "05d", ".2f", "{w}", ">{w}", "s", "10.3", "é<5"]
 LITS = ["", "", "a", " text ", "{", "}", "{}", "é中", ":", "!", "/2", "\n"]
 
 
 def rand_case(rng, faithful_only=False):
     items = []
+    both = rng.choice(CALLABLE) if rng.random() < 0.35 else None    # one field used called AND uncalled
     for _ in range(rng.randrange(1, 7)):
         it = {"lit": rng.choice(LITS)}
         if rng.random() < 0.85:
-            it["name"] = rng.choice(NAMES) if rng.random() < 0.8 or not items else \
-                next((i["name"] for i in items if i.get("name")), "x")      # repeat an earlier field
+            k = rng.random()
+            if both is not None and k < 0.55:
+                it["name"] = both + rng.choice(["", "()"])
+            elif k < 0.85 or not items:
+                it["name"] = rng.choice(NAMES)
+            else:
+                prev = next((i["name"] for i in items if i.get("name")), "x")      # repeat an earlier field ...
+                it["name"] = prev
+                if rng.random() < 0.4:            # ... or its called / uncalled twin
+                    base = prev[:-2] if prev.endswith("()") else prev
+                    if base in CALLABLE:
+                        it["name"] = base if prev.endswith("()") else base + "()"
             it["conv"] = rng.choice(["", "", "s", "r", "r"] if faithful_only else ["", "", "s", "r", "r", "a"])
             it["spec"] = "" if faithful_only else rng.choice(SPECS)
             if it["spec"] == "" and rng.random() < 0.1:
@@ -286,6 +355,11 @@ def corpus():
         {"items": [I("", "y", "a", "")], "values": VALUES},
         {"items": [I("", "x", "", "{w}")], "values": VALUES},
         {"items": [I("", "g().a")], "values": VALUES},
+        {"items": [I("calling ", "total", "r"), I(" gave ", "total()")], "values": VALUES},
+        {"items": [I("", "total()"), I(" came out of ", "total")], "values": VALUES},
+        {"items": [I("", "o.m"), I(" ", "o.m()", "r"), I(" ", "o.m", "r")], "values": VALUES},
+        {"items": [I("", "ps[0].m()")], "values": VALUES},
+        {"items": [I("", "pd[db].m()", "r"), I(" ", "o.kids[1].m()")], "values": VALUES},
         {"items": [I("a", "x"), I("b", "x", "r"), I("", "x"), I("c")], "values": VALUES},
         {"items": [I("", "y", "s", "5"), I("", "y", "s", "6")], "values": VALUES},
         {"items": [I("", "x", "", "/2"), I("", "x"), I("", "x")], "values": VALUES},
@@ -325,7 +399,9 @@ SPEC = Spec(
     histogram=hist,
     nontrivial=lambda c, o: not o.startswith("!") and any(it.get("name") for it in c["items"]),
     rule="1-6 items per format string: literals (incl. doubled braces, non-ASCII, ':', '!', '/2'), fields over nested "
-         "values (keys, attributes, indices, call syntax, calls returning objects), conversions none/s/r/a, specs "
+         "values (keys, attributes, [int] / [str] indices in any mix before a trailing call, call syntax, calls returning "
+         "objects, callable objects and bound methods used BOTH called and uncalled in one format string with "
+         "different conversions, containers of objects with methods), conversions none/s/r/a, specs "
          "(alignment, width, precision, type, nested {w}); repeated fields to exercise the occurrence numbering; 60% "
          "of cases restricted to the faithful fragment (empty spec, no !a).  non-trivial = the original formats and "
          "there is at least one field",
